@@ -52,7 +52,10 @@ def handleMerge (c : J) : Res := Id.run do
   if !(c.getBool "pure") then r := fail r "C05" "inputs mutated"
   match outKind out with
   | "panic" => r := fail r "C05" "panic"
-  | "err" => r := tag r "error"
+  | "err" =>
+    r := tag r "error"
+    -- an error is the report of a clash between desired and observed; the last-applied record alone never causes one
+    if !(shapeMismatch o d) then r := fail r "C05" "the merge failed although observed and desired agree in shape everywhere (no clash between them to report)"
   | _ =>
     let res := out.getD "ok"
     if clash o d then r := fail r "C05" "type clash between desired and observed silently dropped"
